@@ -45,10 +45,11 @@ const (
 	OpMapLoadOrStore
 	OpYield
 	OpExit
+	OpPostUnlock
 )
 
 var opNames = [...]string{"start", "lock", "unlock", "wait", "waitwake", "signal", "broadcast", "intn",
-	"loadu32", "storeu32", "mapload", "maploadorstore", "yield", "exit"}
+	"loadu32", "storeu32", "mapload", "maploadorstore", "yield", "exit", "postunlock"}
 
 func (k OpKind) String() string { return opNames[k] }
 
@@ -120,8 +121,19 @@ type thread struct {
 	body     func()
 }
 
+// Mode is the granularity of a run.
+type Mode int
+
+const (
+	Coarse     Mode = iota // scheduling points: Lock, wake-up from Wait, Yield
+	Fine                   // + before every other operation
+	FineUnlock             // + once more right after every Unlock (the statements that follow a release can then be
+	//                        separated from it: exposes shared accesses made after the lock was dropped)
+)
+
 type Sched struct {
 	fine     bool
+	postUnl  bool
 	strat    Strategy
 	threads  []*thread
 	running  *thread
@@ -239,8 +251,8 @@ func (s *Sched) resume(t *thread) bool {
 
 // Run executes the bodies as managed threads 0..len-1 (they may start more with Go) under the
 // strategy and returns what happened. fine selects the granularity.
-func Run(fine bool, strat Strategy, maxSteps int, bodies ...func()) *Outcome {
-	s := &Sched{fine: fine, strat: strat, yield: make(chan *thread), maxSteps: maxSteps}
+func Run(mode Mode, strat Strategy, maxSteps int, bodies ...func()) *Outcome {
+	s := &Sched{fine: mode != Coarse, postUnl: mode == FineUnlock, strat: strat, yield: make(chan *thread), maxSteps: maxSteps}
 	cur = s
 	defer func() { cur = nil }()
 	for _, b := range bodies {
@@ -429,6 +441,10 @@ func (m *Mutex) Unlock() {
 	}
 	m.held = false
 	s.logOp(Op{Kind: OpUnlock})
+	if s.postUnl {
+		s.point(OpPostUnlock, nil)
+		s.logOp(Op{Kind: OpPostUnlock})
+	}
 }
 
 type Cond struct {
